@@ -49,16 +49,19 @@ import (
 )
 
 type gstep struct {
-	K   string `json:"k"` // block | reinstate | refresh
-	I   int    `json:"i,omitempty"`
-	Set []int  `json:"set,omitempty"`
+	K   string  `json:"k"` // block | reinstate | refresh
+	I   int     `json:"i,omitempty"`
+	Set []int   `json:"set,omitempty"`
+	W   []int32 `json:"w,omitempty"`  // refresh: Weight of every listed endpoint (parallel to Set)
+	WT  []int32 `json:"wt,omitempty"` // refresh: WeightType (0 = ELoop, 1 = EStaticWeight) of every listed endpoint
 }
 
 type gcase struct {
 	Stream string   `json:"stream"`
-	N      int      `json:"n"`           // servers 127.0.0.1 .. 127.0.0.N
-	W      []int32  `json:"w,omitempty"` // static weights (all endpoints) when non-empty
-	Init   []int    `json:"init"`        // endpoints the registry lists at installation
+	N      int      `json:"n"`            // servers 127.0.0.1 .. 127.0.0.N
+	W      []int32  `json:"w,omitempty"`  // Weight per endpoint at installation (static for all when WT is absent)
+	WT     []int32  `json:"wt,omitempty"` // WeightType per endpoint at installation (0 = ELoop, 1 = EStaticWeight)
+	Init   []int    `json:"init"`         // endpoints the registry lists at installation
 	Steps  []gstep  `json:"steps"`
 	Codes  []uint32 `json:"codes"`
 	Note   string   `json:"note,omitempty"`
@@ -285,6 +288,9 @@ func (h *harness) runMgr(c *gcase) {
 		ef := endpointf.EndpointF{Host: s.host, Port: int32(s.port), Timeout: 3000, Istcp: 1}
 		if len(c.W) == c.N {
 			ef.Weight, ef.WeightType = c.W[i], 1
+			if len(c.WT) == c.N {
+				ef.WeightType = c.WT[i]
+			}
 		}
 		w.epf = append(w.epf, ef)
 		k := endpoint.Tars2endpoint(ef).Key
@@ -306,6 +312,19 @@ func (h *harness) runMgr(c *gcase) {
 	// (Refresh installs the crc32-sorted list, Remove deletes, Add appends)
 	literal := sortByCRC(vm.Active())
 
+	// The weight type in force (do static weights apply?) is decided by updateActiveEp from the
+	// registry answer alone: the common WeightType of ALL listed endpoints, else ELoop.  The
+	// harness tracks it from the answers it serves; the manager is held to it through routing.
+	lastAnswer := hostSorted(initF)
+	effWT := effectiveWeightType(lastAnswer)
+	// An adapter remembers its endpoint as it was when the adapter was created.  An endpoint whose
+	// Weight/WeightType the registry changed while it stayed listed, and that is then reinstated
+	// by addAliveEp, comes back with the OLD weight (finding addAliveEp-stale-weight): deviations
+	// while such an endpoint is active are attributed to that finding.
+	reweighted := map[int]bool{}  // rank -> weight or type changed since it was first listed
+	staleActive := map[int]bool{} // rank -> reinstated after such a change, no new answer since
+	h.res.Histogram[fmt.Sprintf("mgr:answer:%s", answerKind(lastAnswer))]++
+
 	check := func(step int, locus string) bool {
 		if q := vm.ProbeQueueLen(); q != 0 {
 			h.res.Histogram["mgr:probe-still-queued"]++
@@ -323,10 +342,15 @@ func (h *harness) runMgr(c *gcase) {
 		if n == 0 {
 			return true
 		}
-		// a fresh manager on the same active set
+		// a fresh manager on the same active set (it computes the weight type from these endpoints
+		// only: comparable when that is the type the full registry answer gives)
 		var fr []endpointf.EndpointF
 		for _, k := range active {
 			fr = append(fr, w.epf[w.idxOf[k]])
+		}
+		freshComparable := effectiveWeightType(fr) == effWT
+		if !freshComparable {
+			h.res.Histogram["mgr:fresh-not-comparable(blocked endpoint decides the weight type)"]++
 		}
 		fresh, _, err := newManagerFor(fr)
 		if err != nil {
@@ -338,7 +362,7 @@ func (h *harness) runMgr(c *gcase) {
 			}
 		}()
 		// independent predictions
-		rc := &rcase{EW: len(c.W) == c.N, Alg: "k", repaired: h.repaired}
+		rc := &rcase{EW: effWT == int32(endpoint.EStaticWeight), Alg: "k", repaired: h.repaired}
 		members := make([]int, n)
 		list := make([]endpoint.Endpoint, n)
 		for i, k := range want {
@@ -368,6 +392,21 @@ func (h *harness) runMgr(c *gcase) {
 		}
 		for _, code := range c.Codes {
 			for _, ty := range []int{int(tars.ModHash), int(tars.ConsistentHash)} {
+				wantKey := ""
+				tyName := "mod-hash"
+				if ty == int(tars.ModHash) {
+					wantKey = slot(want, code, cycle)
+				} else {
+					tyName = "consistent-hash"
+					if exp := ref.explained(code); len(exp) > 0 {
+						wantKey = want[exp[0]]
+					} else {
+						// static weights apply and no active endpoint has a positive weight: the ring is
+						// empty, the manager falls back to a random endpoint
+						h.res.Histogram["mgr:empty-ring-skipped"]++
+						continue
+					}
+				}
 				gotH, err := route(w.sp, ty, code, false)
 				frH, ferr := route(fresh.Servant(), ty, code, false)
 				h.res.Evaluations++
@@ -382,17 +421,10 @@ func (h *harness) runMgr(c *gcase) {
 					h.gviolate(c, step, "C14:wrong-value:ServantProxy.doInvoke", "one-way call to a listening endpoint failed", fmt.Sprintf("after step %d: %v / fresh %v", step, err, ferr))
 					return false
 				}
-				wantKey := ""
-				tyName := "mod-hash"
-				if ty == int(tars.ModHash) {
-					wantKey = slot(want, code, cycle)
-				} else {
-					tyName = "consistent-hash"
-					if exp := ref.explained(code); len(exp) > 0 {
-						wantKey = want[exp[0]]
-					}
-				}
 				wantH := w.epf[w.idxOf[wantKey]].Host
+				if !freshComparable {
+					frH = wantH
+				}
 				if gotH == wantH && frH == wantH {
 					continue
 				}
@@ -405,20 +437,64 @@ func (h *harness) runMgr(c *gcase) {
 					vsig = "C14:history-dependent:endpointManager.addAliveEp-modhash-order"
 					what = "after an endpoint was reinstated, addAliveEp re-sorts the installed list (activeEp) by crc32 but only appends to the mod-hash selector, so mod-hash routes code h to slot h mod N of another order than the installed list and than a fresh client with the same set"
 				}
+				if frH == wantH && len(staleActive) > 0 {
+					vsig = "C14:history-dependent:endpointManager.addAliveEp-stale-weight"
+					what = "an endpoint whose weight / weight type the registry changed while it was blocked is reinstated by addAliveEp with the weight its adapter remembers from before: ring and weighted cycle differ from those of a fresh client holding the same registry answer"
+				}
 				cc := *c
 				cc.Codes = []uint32{code}
 				h.gviolate(&cc, step, vsig, what,
-					fmt.Sprintf("after step %d, %s code %d: routed to %s, fresh manager %s, rule %s (installed list %v)", step, tyName, code, gotH, frH, wantH, hostsOf(w, want)))
+					fmt.Sprintf("after step %d, %s code %d: routed to %s, fresh manager %s, rule %s (installed list %v, registry answer %s => weight type %d)",
+						step, tyName, code, gotH, frH, wantH, hostsOf(w, want), showAnswer(lastAnswer), effWT))
 				if strings.HasSuffix(vsig, "addAliveEp-modhash-order") {
 					continue // keep going: the rest of the history may show something else
 				}
+				if strings.HasSuffix(vsig, "addAliveEp-stale-weight") {
+					return true // everything routed by weight is off until the next registry change
+				}
+				return false
+			}
+		}
+		// round robin (calls without a hash code): over one period every active endpoint is chosen
+		// as often as the weighted cycle prescribes (once each when static weights do not apply)
+		wantCnt := map[string]int{}
+		period := n
+		if len(cycle) > 0 {
+			period = len(cycle)
+			for _, idx := range cycle {
+				wantCnt[list[idx].Host]++
+			}
+		} else {
+			for _, e := range list {
+				wantCnt[e.Host]++
+			}
+		}
+		if period <= 1200 {
+			gotCnt := map[string]int{}
+			for i := 0; i < period; i++ {
+				ctx := current.ContextWithClientCurrent(context.Background())
+				var resp requestf.ResponsePacket
+				_ = w.sp.TarsInvoke(ctx, 1, "c14", []byte{1}, nil, nil, &resp)
+				ip, _ := current.GetServerIPFromContext(ctx)
+				gotCnt[ip]++
+				h.res.Evaluations++
+			}
+			if fmt.Sprint(gotCnt) != fmt.Sprint(wantCnt) {
+				if len(staleActive) > 0 {
+					h.gviolate(c, step, "C14:history-dependent:endpointManager.addAliveEp-stale-weight",
+						"an endpoint whose weight / weight type the registry changed while it was blocked is reinstated by addAliveEp with the weight its adapter remembers from before: ring and weighted cycle differ from those of a fresh client holding the same registry answer",
+						fmt.Sprintf("after step %d: %d calls without hash code: %v, prescribed %v", step, period, gotCnt, wantCnt))
+					return true
+				}
+				h.gviolate(c, step, sig, "round robin over one period does not visit the active endpoints as often as the weighted cycle of a fresh client prescribes (the weight type in force differs from the one the registry answer gives, or a weight is stale)",
+					fmt.Sprintf("after step %d: %d calls without hash code: %v, prescribed %v (registry answer %s => weight type %d)", step, period, gotCnt, wantCnt, showAnswer(lastAnswer), effWT))
 				return false
 			}
 		}
 		return true
 	}
 
-	h.res.Count(fmt.Sprintf("mgr|%d|%v|%v|%v", c.N, c.W, c.Init, c.Steps), "mgr:case", len(c.Steps) > 0)
+	h.res.Count(fmt.Sprintf("mgr|%d|%v|%v|%v|%v", c.N, c.W, c.WT, c.Init, c.Steps), "mgr:case", len(c.Steps) > 0)
 	h.res.TracesValidated++
 	if !check(-1, "updateActiveEp") {
 		return
@@ -480,6 +556,10 @@ func (h *harness) runMgr(c *gcase) {
 			} else {
 				h.res.Histogram["mgr:step-reinstate"]++
 				literal = append(literal, key)
+				if reweighted[st.I] {
+					staleActive[st.I] = true
+					h.res.Histogram["mgr:reinstated-after-reweighting"]++
+				}
 			}
 			if !check(si, "addAliveEp") {
 				return
@@ -495,8 +575,25 @@ func (h *harness) runMgr(c *gcase) {
 				continue
 			}
 			var nf []endpointf.EndpointF
-			for _, i := range st.Set {
+			wasListed := map[string]bool{}
+			for _, e := range lastAnswer {
+				wasListed[e.Host] = true
+			}
+			nowListed := map[int]bool{}
+			for n, i := range st.Set {
+				if len(st.W) == len(st.Set) && len(st.WT) == len(st.Set) {
+					if wasListed[w.epf[i].Host] && (w.epf[i].Weight != st.W[n] || w.epf[i].WeightType != st.WT[n]) {
+						reweighted[i] = true
+					}
+					w.epf[i].Weight, w.epf[i].WeightType = st.W[n], st.WT[n]
+				}
+				nowListed[i] = true
 				nf = append(nf, w.epf[i])
+			}
+			for i := range w.srv {
+				if !nowListed[i] {
+					delete(reweighted, i) // forgotten by the manager: a later adapter starts afresh
+				}
 			}
 			reg.mu.Lock()
 			reg.eps = nf
@@ -517,12 +614,19 @@ func (h *harness) runMgr(c *gcase) {
 					}
 				}
 			}
-			before := strings.Join(vm.Registry(), "|")
 			if out := m.Call(nil); len(out) == 1 && !out[0].IsNil() {
 				h.res.Histogram["mgr:refresh-error"]++
 			}
-			if strings.Join(vm.Registry(), "|") != before {
+			// refreshEndpoints installs the answer iff it differs from the previous one (compared
+			// after ordering by host) and is not empty
+			if ans := hostSorted(nf); len(ans) > 0 && !reflect.DeepEqual(ans, lastAnswer) {
+				lastAnswer = ans
+				effWT = effectiveWeightType(ans)
+				staleActive = map[int]bool{}     // the selectors are rebuilt from the answer
 				literal = sortByCRC(vm.Active()) // new selectors were built from the sorted list
+				h.res.Histogram[fmt.Sprintf("mgr:answer:%s", answerKind(ans))]++
+			} else {
+				h.res.Histogram["mgr:answer:unchanged"]++
 			}
 			h.res.Histogram["mgr:step-refresh"]++
 			// servers of endpoints that left and came back must be reachable
@@ -531,6 +635,59 @@ func (h *harness) runMgr(c *gcase) {
 			}
 		}
 	}
+}
+
+// effectiveWeightType: the weight type updateActiveEp must put in force for a registry answer,
+// whatever was in force before (Lean: HashRoute.effectiveWeightType): the common WeightType of
+// all listed endpoints, ELoop when they differ.
+func effectiveWeightType(ans []endpointf.EndpointF) int32 {
+	if len(ans) == 0 {
+		return int32(endpoint.ELoop)
+	}
+	t := ans[0].WeightType
+	for _, e := range ans {
+		if e.WeightType != t {
+			return int32(endpoint.ELoop)
+		}
+	}
+	return t
+}
+
+func hostSorted(l []endpointf.EndpointF) []endpointf.EndpointF {
+	out := append([]endpointf.EndpointF{}, l...)
+	sort.SliceStable(out, func(i, j int) bool { return out[i].Host < out[j].Host })
+	return out
+}
+
+func answerKind(ans []endpointf.EndpointF) string {
+	st, lp := 0, 0
+	for _, e := range ans {
+		if e.WeightType == int32(endpoint.EStaticWeight) {
+			st++
+		} else {
+			lp++
+		}
+	}
+	switch {
+	case lp == 0:
+		return "all-static"
+	case st == 0:
+		return "all-loop"
+	}
+	return "mixed"
+}
+
+func showAnswer(ans []endpointf.EndpointF) string {
+	var sb strings.Builder
+	sb.WriteByte('[')
+	for i, e := range ans {
+		if i > 0 {
+			sb.WriteByte(' ')
+		}
+		fmt.Fprintf(&sb, "%s(w=%d,type=%d)", e.Host, e.Weight, e.WeightType)
+	}
+	sb.WriteByte(']')
+	return sb.String()
 }
 
 func hostsOf(w *gworld, keys []string) []string {
@@ -560,6 +717,34 @@ func without(l []string, x string) []string {
 	return r
 }
 
+// genWeights: mode 0 = every endpoint has a static weight, 1 = mixed types, 2 = every endpoint in
+// plain rotation; weights from the interesting values (0: no virtual node / extra pick, 1: one
+// virtual node, 40, 100, 200) and random ones.
+func genWeights(rng *rand.Rand, n int, mode int) (ws, wts []int32) {
+	vals := []int32{0, 1, 40, 100, 200}
+	for i := 0; i < n; i++ {
+		w := vals[rng.Intn(len(vals))]
+		if rng.Intn(3) == 0 {
+			w = int32(1 + rng.Intn(120))
+		}
+		t := int32(0)
+		switch mode {
+		case 0:
+			t = 1
+		case 1:
+			t = int32(rng.Intn(2))
+		}
+		ws, wts = append(ws, w), append(wts, t)
+	}
+	if mode == 1 && n >= 2 { // really mixed
+		wts[0], wts[1] = 1, 0
+	}
+	if mode == 0 { // at least one positive weight, else the ring is empty
+		ws[rng.Intn(n)] = vals[2+rng.Intn(3)]
+	}
+	return
+}
+
 func (h *harness) streamMgr() {
 	rng := h.rng
 	n := 10
@@ -568,6 +753,15 @@ func (h *harness) streamMgr() {
 	}
 	// the shape of the demonstration: four endpoints, a non-last one is blocked, then reinstated
 	h.runMgr(&gcase{N: 4, Init: []int{0, 1, 2, 3}, Steps: []gstep{{K: "block", I: 0}, {K: "block", I: 1}, {K: "reinstate", I: 0}, {K: "reinstate", I: 1}},
+		Codes: mgrCodes(rng, nil)})
+	// weight types over refreshes: all-static -> mixed (a loop endpoint of weight 0) -> all-loop -> all-static
+	h.runMgr(&gcase{N: 3, Init: []int{0, 1, 2}, W: []int32{40, 200, 100}, WT: []int32{1, 1, 1},
+		Steps: []gstep{
+			{K: "refresh", Set: []int{0, 1, 2}, W: []int32{40, 200, 0}, WT: []int32{1, 1, 0}},
+			{K: "refresh", Set: []int{0, 1, 2}, W: []int32{40, 200, 0}, WT: []int32{0, 0, 0}},
+			{K: "refresh", Set: []int{2, 1, 0}, W: []int32{1, 100, 40}, WT: []int32{1, 1, 1}},
+			{K: "refresh", Set: []int{0, 1}, W: []int32{0, 200}, WT: []int32{1, 0}},
+		},
 		Codes: mgrCodes(rng, nil)})
 	for i := 0; i < n; i++ {
 		h.runMgr(genMgrCase(rng))
@@ -588,11 +782,9 @@ func mgrCodes(rng *rand.Rand, pts []uint32) []uint32 {
 func genMgrCase(rng *rand.Rand) *gcase {
 	n := 3 + rng.Intn(5)
 	c := &gcase{Stream: "mgr", N: n}
-	if rng.Intn(4) == 0 {
-		for i := 0; i < n; i++ {
-			c.W = append(c.W, int32(4+rng.Intn(97)))
-		}
-	}
+	// weights and weight types: the registry answers walk through all-static / mixed / all-loop
+	mode := rng.Intn(3)
+	c.W, c.WT = genWeights(rng, n, mode)
 	all := make([]int, n)
 	for i := range all {
 		all[i] = i
@@ -649,7 +841,14 @@ func genMgrCase(rng *rand.Rand) *gcase {
 					delete(blocked, i)
 				}
 			}
-			c.Steps = append(c.Steps, gstep{K: "refresh", Set: set})
+			st := gstep{K: "refresh", Set: set}
+			if rng.Intn(5) != 0 { // otherwise the weights of the listed endpoints stay as they are
+				if rng.Intn(3) != 0 {
+					mode = (mode + 1 + rng.Intn(2)) % 3
+				}
+				st.W, st.WT = genWeights(rng, len(set), mode)
+			}
+			c.Steps = append(c.Steps, st)
 		}
 	}
 	var pts []uint32
